@@ -13,13 +13,14 @@ func countTransactions(w http.ResponseWriter, r *http.Request) {
 
 	rq, err := getResourceQuery[any](r)
 	if err != nil {
+		api.BadRequest(w, common.ErrValidation, err)
 		return
 	}
 	rq.Builder = buildGetTransactionsQuery(r)
 
 	count, err := common.LedgerFromContext(r.Context()).CountTransactions(r.Context(), *rq)
 	if err != nil {
-		common.HandleCommonErrors(w, r, err)
+		common.HandleCommonPaginationErrors(w, r, err)
 		return
 	}
 
